@@ -35,6 +35,8 @@ enum Target {
     Crash,
     NoSuchFn,
     WrongArgs,
+    /// ten arguments of different types, returned in order
+    Ten,
 }
 
 #[derive(Clone, Debug, Serialize, Deserialize)]
@@ -104,7 +106,7 @@ impl Scenario for C17 {
         for (to, by) in [(4usize, 3usize), (3, 4), (4, 4), (5, 5), (3, 3), (6, 3), (6, 4), (7, 3), (7, 4)] {
             v.push(Act::TransferOwnership { to, by });
         }
-        let mut targets = vec![Target::Add, Target::Boom, Target::Crash, Target::NoSuchFn, Target::WrongArgs];
+        let mut targets = vec![Target::Add, Target::Boom, Target::Crash, Target::NoSuchFn, Target::WrongArgs, Target::Ten];
         for i in 0..8u8 {
             targets.push(Target::Echo(i));
         }
@@ -190,6 +192,10 @@ impl Scenario for C17 {
                     Target::Crash => ("crash", vec![], None, false),
                     Target::NoSuchFn => ("nothing_here", vec![], None, false),
                     Target::WrongArgs => ("add", vec![w.v(2i128)], None, false),
+                    Target::Ten => {
+                        let vals: Vec<ScVal> = (0..8u8).map(echo_val).chain([si128(-7), su32(9)]).collect();
+                        ("ten", vals.iter().map(|v| to_val(env, v)).collect(), Some(ScVal::Vec(Some(soroban_sdk::xdr::ScVec(vals.try_into().unwrap())))), true)
+                    }
                 };
                 let argv: soroban_sdk::Vec<Val> = soroban_sdk::Vec::from_slice(env, &args);
                 let signers: Vec<Address> = match auth {
